@@ -40,6 +40,8 @@ class MultiVector:
             for key in list(items.keys()):
                 if key not in algebra.canon2bin:
                     target, swaps = algebra._blade2canon(key)
+                    if target not in algebra.canon2bin:
+                        raise ValueError(f"{key} is not a basis blade of this algebra.")
                     items[target] = - items.pop(key) if swaps % 2 else items.pop(key)
 
             keys, values = zip(*((blade, items[blade]) for blade in algebra.canon2bin if blade in items))
